@@ -185,7 +185,13 @@ def conform(ip, st, v, ty):
     head, args = parse_type(ty)
     if head == "Any":
         return v
+    if head == "Dec":
+        if isinstance(v, Num) and getattr(v, "decimal", False):
+            return v
+        raise Mismatch(ty)
     if head == "Real":
+        if getattr(v, "decimal", False):
+            raise Mismatch(ty)          # a Decimal is not handed to code typed for ints / floats (its arithmetic rounds)
         if isinstance(v, (Num, Bool)):
             return Num(to_real(ip.num(v)))
         raise Mismatch(ty)
@@ -886,13 +892,19 @@ def _iter_cell(ip, st, v):
 
 
 def _sf_pulled(ip, e, st):
-    """pulled(flow): number of values taken from the input iterator so far"""
-    return Num(_iter_cell(ip, st, ip.ev1(e.args[0], st)).cursor)
+    """pulled(flow): number of values taken from the input iterator so far (nothing is ever taken from a plain list)"""
+    v = ip.ev1(e.args[0], st)
+    if ip.is_seq(st, v):
+        return Num(I(0))
+    return Num(_iter_cell(ip, st, v).cursor)
 
 
 def _sf_content(ip, e, st):
     """content(flow): the whole sequence the input iterator delivers (ghost)"""
-    c = _iter_cell(ip, st, ip.ev1(e.args[0], st))
+    v = ip.ev1(e.args[0], st)
+    if ip.is_seq(st, v):
+        return ip.as_view(st, v)
+    c = _iter_cell(ip, st, v)
     if getattr(c, "live", None) is not None:
         return ip.lst_view(ip.deref(st, c.live))
     return c.src
